@@ -345,7 +345,7 @@ Section Sim.
     asset_sim a a' -> mpd_good c (apath, name, o) ->
     lstate_rel c c0 (load_asset mode_read apath name o a c) (load_asset mode_scan apath name o a' c0).
   Proof.
-    intros Ha Hg. destruct o as [| |sets]; cbn [Cache.load_asset]; try (cbn; auto; fail).
+    intros Ha Hg. destruct o as [| |sets0|sets]; cbn [Cache.load_asset]; try (cbn; auto; fail).
     set (a1 := {| a_mpds := a_mpds a ++ [name]; a_reps := a_reps a; a_segdur := a_segdur a; a_loop := a_loop a; a_ref := a_ref a |}).
     set (a1' := {| a_mpds := a_mpds a' ++ [name]; a_reps := a_reps a'; a_segdur := a_segdur a'; a_loop := a_loop a'; a_ref := a_ref a' |}).
     assert (Ha1 : asset_sim a1 a1').
@@ -512,7 +512,7 @@ Section TwoRuns.
     - inversion Ho as [|? ? Ho1 Ho2]; subst.
       set (a := match lookup apath assets with Some a => a | None => empty_asset end).
       assert (Hr : two_rel (load_asset md1 apath name o a ci) (load_asset md2 apath name o a di)).
-      { destruct o as [| |sets]; cbn [Cache.load_asset]; try (cbn; auto; fail).
+      { destruct o as [| |sets0|sets]; cbn [Cache.load_asset]; try (cbn; auto; fail).
         match goal with |- two_rel (do r <- load_sets md1 apath sets ?A1 ci; _) _ =>
           pose proof (load_sets_two apath sets A1 ci di Ho1 Hc) as Hs;
           destruct (load_sets md1 apath sets A1 ci) as [[[x1 c1] e1]| |],
@@ -600,7 +600,7 @@ Section WriteMode.
     cache_good B enc dec c l.
   Proof.
     intros Hcons Hg Hts. unfold cache_good, consistent in *. rewrite Forall_forall in *. intros [[apath name] o] Hin.
-    specialize (Hcons _ Hin). specialize (Hts _ Hin). destruct o as [| |sets]; cbn in *; auto.
+    specialize (Hcons _ Hin). specialize (Hts _ Hin). destruct o as [| |sets0|sets]; cbn in *; auto.
     intros s Hs b m Hm. split; [|eapply Hts; eauto]. rewrite (Hcons s Hs b m Hm) at 1.
     apply Hg.
   Qed.
